@@ -54,8 +54,14 @@ def worker(path):
             # ---- prod: relative n*eps when no overflow / underflow can occur
             logs = [math.log10(abs(x)) for x in xs if x != 0]
             if any(x == 0 for x in xs):
-                if got["prod"] != 0:
-                    bad("prod-with-zero", "product of a list containing 0 is not 0", prod=repr(got["prod"]))
+                # a zero factor makes a finite product zero, with the sign the factors' signs give (IEEE, any order)
+                negs = sum(1 for x in xs if math.copysign(1.0, x) < 0)
+                want_sign = -1.0 if negs % 2 else 1.0
+                for name, g in (("prod", got["prod"]), ("prod(permuted)", sh["prod"])):
+                    if isinstance(g, str) or g != 0:
+                        bad("prod-with-zero", "product of a finite list containing 0 is not 0", which=name, prod=repr(g))
+                    elif math.copysign(1.0, g) != want_sign:
+                        bad("prod-zero-sign", "the zero product of a finite list does not carry the sign of its factors", which=name, prod=repr(g), negative_factors=negs)
             elif sum(abs(l) for l in logs) < 280:
                 p_exact = Fraction(1)
                 for e in ex:
@@ -78,6 +84,21 @@ def worker(path):
                     bad("sum-with-infinities", "sum of +inf and -inf is not NaN", got=repr(s))
             elif pos and s != math.inf or neg and s != -math.inf:
                 bad("sum-with-infinities", "sum with an infinity is not that infinity", got=repr(s))
+            # prod with infinities (no NaN among the elements): infinity times zero is NaN whatever the order; without a
+            # zero - and with finite factors that cannot underflow on the way - it is the infinity of the factors' sign
+            if not any(math.isnan(x) for x in xs):
+                fin = [x for x in xs if math.isfinite(x)]
+                for name, g in (("prod", got["prod"]), ("prod(permuted)", sh["prod"])):
+                    if isinstance(g, str):
+                        continue
+                    if any(x == 0 for x in xs):
+                        if not math.isnan(g):
+                            bad("prod-infinity-times-zero", "the product of a list holding an infinity and a zero is not NaN", which=name, prod=repr(g))
+                    elif sum(abs(math.log10(abs(x))) for x in fin) < 280:
+                        negs = sum(1 for x in xs if x < 0)
+                        want = -math.inf if negs % 2 else math.inf
+                        if g != want:
+                            bad("prod-with-infinities", "the product of a list holding an infinity (and no zero) is not the infinity of the factors' sign", which=name, prod=repr(g), expected=repr(want))
         # permutation invariance (exact) for min / max
         for f in ("min", "max"):
             if sh[f] != got[f]:
